@@ -54,6 +54,7 @@ def run(repo, rep, tier):
     _extent(repo, rep)
     _retype(repo, rep)
     _handler(repo, rep)
+    _functions(repo, rep)
     _formatted(repo, rep)
 
 
@@ -408,6 +409,78 @@ def _handler(repo, rep):
             and L.frag_find(w, "__token = None")]
     rep.check(bool(init), "R12.4", site, "each render function starts with "
               "no current token", construct="token-init", where=wh)
+
+
+def _functions(repo, rep):
+    """Every function the compiler emits keeps its own token and records
+    failures itself (render functions *and* slot fillers); before control
+    passes to another emitted function the caller's token is cleared or
+    points at the call site."""
+    for name in ("visit_Macro", "visit_UseExternalMacro"):
+        f = repo.func(CC + name)
+        res = L.emission(repo, f.qualname)
+        fds = [w for w in A.walk(res.emission) if isinstance(w, A.Py)
+               and w.kind == "FunctionDef"]
+        rep.check(len(fds) == 1, "R12.4", f.qualname, "one function is "
+                  "emitted", construct="funcdef:" + name, where=L.where(f))
+        for fd in fds:
+            body = fd.f.get("body")
+            lin = L.Lin(body)
+            init = lin.index(lambda it: isinstance(it, A.Frag) and bool(
+                L.frag_find(it, "__token = None")))
+            tries = lin.all(L.is_py("Try"))
+            childs = lin.all(lambda it: isinstance(it, A.Child))
+            ok = init >= 0 and bool(tries) and bool(childs) and \
+                init < tries[0] and all(
+                    lin.inside(c, "Try", "body") is not None for c in childs)
+            rep.check(ok, "R12.4", f.qualname,
+                      "the emitted function starts with no current token and "
+                      "runs its body inside the error-recording handler (an "
+                      "exception is attributed to this function's own "
+                      "expression, file and token table)",
+                      construct="own-handler:" + name, where=L.where(f),
+                      detail="init=%s tries=%s children=%s" % (
+                          init, tries, childs))
+            if tries:
+                t = lin.item(tries[0])
+                hs = [it for it, _ in A.flatten(t.f.get("handlers", A.Seq()))]
+                rec = any(isinstance(w, A.Frag) and L.frag_find(
+                    w, "if _P is not None: rcontext.setdefault('__error__', "
+                       "[]).append(_T + (__filename, _E))")
+                    for h in hs for w in A.walk(h))
+                last = None
+                for h in hs:
+                    items = list(A.flatten(h.f.get("body")))
+                    last = items[-1][0] if items else None
+                bare = isinstance(last, A.Frag) and last.tree is not None \
+                    and isinstance(last.tree.body[-1], ast.Raise) and \
+                    last.tree.body[-1].exc is None
+                rep.check(rec and bare, "R12.4", f.qualname,
+                          "its handler records (token entry, file name, "
+                          "exception) and re-raises", construct="handler:" +
+                          name, where=L.where(f))
+    # transfers of control
+    for name, callpat in (
+            ("visit_UseInternalMacro",
+             "_F(__stream, econtext.copy(), rcontext, __i18n_domain, "
+             "__i18n_context, target_language)"),
+            ("visit_DefineSlot", "_F(__stream, econtext.copy(), rcontext)")):
+        f = repo.func(CC + name)
+        res = L.emission(repo, f.qualname)
+        lin = L.Lin(res.emission)
+        call = lin.index(lambda it: isinstance(it, A.Frag) and bool(
+            L.frag_find(it, callpat, "expr")))
+        resets = [i for i in lin.all(lambda it: isinstance(it, A.Frag) and
+                                     bool(L.frag_find(it, "__token = None")))
+                  if i < call]
+        same = bool(resets) and L.cond_signature(lin.conds(resets[-1])) <= \
+            L.cond_signature(lin.conds(call)) if call >= 0 else False
+        rep.check(call >= 0 and same, "R12.1", f.qualname,
+                  "the caller's token is cleared before control passes to "
+                  "another emitted function (which reports its own "
+                  "position; a stale token would add an unrelated call "
+                  "site)", construct="reset-before-call:" + name,
+                  where=L.where(f))
 
 
 def _formatted(repo, rep):
